@@ -13,7 +13,7 @@ import (
 
 func init() {
 	Register(&Scenario{Prop: "C11", Name: "abort-then-retry", Run: scenC11, SoftParks: true, Weight: 1,
-		Rule: "source S with a chain or fork log of 2-6 entries and receiver R (ReplicationConcurrency in {1,2,32}; automatic replication switched off so that only explicit requests replicate); a sequence of 1-3 requests (Sync with its own context, or the blocking LoadMoreFrom), S possibly writing in between; ONE request is aborted at opportunity number j drawn per run, opportunities being counted as they occur: before the call, every arrival of one of R's goroutines at the hooks replicator.before-slot / after-dequeue / before-done / store.load-end, and every block request R registers; abort kind drawn per run: cancel the context, fail the block request, or let the virtual clock pass the context's deadline; parked goroutines and fetch completions are released in drawn order; finally an uncancelled Sync of S's current heads; oracle: at rest R holds every entry of S's log; non-trivial = the abort really happened at an opportunity >= 1 while the request was in flight"})
+		Rule: "source S with a chain or fork log of 2-6 entries and receiver R (ReplicationConcurrency in {1,2,32}; automatic replication switched off so that only explicit requests replicate); a sequence of 1-3 requests (Sync with its own context, or the blocking LoadMoreFrom), S possibly writing in between; ONE request is aborted at opportunity number j drawn per run, opportunities being counted as they occur: before the call, every arrival of one of R's goroutines at the hooks replicator.before-slot / after-dequeue / before-done / store.load-end, and every block request R registers; abort kind drawn per run: cancel the context, cancel it in the very quantum in which one of its block fetches completes, fail the block request (once, or 2-5 times in a row so that the retries of up to 6 later requests fail too), or let the virtual clock pass the context's deadline; parked goroutines and fetch completions are released in drawn order; finally an uncancelled Sync of S's current heads; oracle: at rest R holds every entry of S's log; non-trivial = the abort really happened at an opportunity >= 1 while the request was in flight"})
 }
 
 func scenC11(k *K) {
@@ -43,7 +43,16 @@ func scenC11(k *K) {
 	nreq := k.C.Range(1, 3)
 	victim := k.C.Intn(nreq)
 	targetOpp := k.C.Intn(24)
-	abortKind := []string{"cancel", "fail-fetch", "timeout"}[k.C.Intn(3)]
+	// cancel-race: the request is cancelled in the very quantum in which one of its block
+	// fetches completes; fail-fetch may hit the same block several times in a row (it fails
+	// again when later requests retry it)
+	abortKind := []string{"cancel", "fail-fetch", "timeout", "cancel-race"}[k.C.Intn(4)]
+	failTimes := 1
+	if abortKind == "fail-fetch" && k.C.Chance(1, 2) {
+		failTimes = k.C.Range(2, 5)
+		nreq = k.C.Range(failTimes, 6)
+		victim = 0
+	}
 	aborted := false
 	abortedAt := ""
 	seenPark := map[int]bool{}
@@ -65,11 +74,22 @@ func scenC11(k *K) {
 		case "fail-fetch":
 			if want != nil {
 				k.W.mu.Lock()
-				k.W.FailWant[want.c.String()] = 1
+				k.W.FailWant[want.c.String()] = failTimes
 				k.W.mu.Unlock()
 			} else {
 				cancelVictim()
 			}
+		case "cancel-race":
+			if want != nil {
+				k.W.mu.Lock()
+				if k.W.enabledLocked(want) {
+					k.W.tr("serve+cancel %s", want)
+					k.W.stat("cancel-races-completion")
+					k.W.execLocked(want)
+				}
+				k.W.mu.Unlock()
+			}
+			cancelVictim()
 		case "timeout":
 			k.Tick(deadline + time.Second)
 		}
@@ -151,7 +171,10 @@ func scenC11(k *K) {
 	if cancelVictim != nil && abortKind == "cancel" && !aborted {
 		// the drawn opportunity was never reached: plain run
 	}
-	// the final, uncancelled request
+	// the final, uncancelled request (no injected failure is left over for it)
+	k.W.mu.Lock()
+	k.W.FailWant = map[string]int{}
+	k.W.mu.Unlock()
 	final := CopyHeads(S.OpLog().Heads().Slice())
 	k.Go(rIdx, "final-sync", func() (interface{}, error) { return nil, R.Sync(context.Background(), final) })
 	k.F = FaultCfg{Serve: 4, ServeAny: 3, Release: 6, Tick: 1}
